@@ -44,6 +44,11 @@ Theorem C14_envelope_members : forall t ty v, wf v ->
 Proof. exact envelope_members. Qed.
 Print Assumptions C14_envelope_members.
 
+Theorem C14_envelope_members_valid : forall t ty v, wf v -> utf8_valid t = true -> utf8_valid ty = true -> jvalid v ->
+  parse_doc (envelope t ty v) = Some (JObj [(k_created_at, JStr t); (k_event_type, JStr ty); (k_payload, v)]).
+Proof. exact envelope_members_valid. Qed.
+Print Assumptions C14_envelope_members_valid.
+
 (* ---- the nodes ---- *)
 
 (* JSONFormatter and JSONFormatterFilter leave the event's type, creation time and payload and every format other than
@@ -107,6 +112,9 @@ Print Assumptions C14_filter_untouched.
 
 (* FormattedAs / Format under any interleaving of the goroutines' programs (each call one atomic step under Event.l):
    every Format returns the latest preceding FormattedAs value for that name, the final table holds the last writes *)
+Theorem C14_lww_every_sequence : forall t sched, lww t sched.
+Proof. exact lww_all. Qed.
+Print Assumptions C14_lww_every_sequence.
 Theorem C14_format_table_lww : forall progs sched, interleave progs sched -> forall t, lww t sched.
 Proof. exact format_table_lww. Qed.
 Print Assumptions C14_format_table_lww.
